@@ -47,3 +47,27 @@ def run_model(ev, part, cfg, binaries, p, walks=0, walk_len=0, shards=1, tlc_tim
                                 "skipped_inapplicable": sum(s["skipped"] for s in summ.values())}
     os.remove(r.outfile)
     return r, g, summ, devs, crashes
+
+
+def crash_as_dev(PROP, c, part):
+    """A crash record names the configuration, the group and the step: recover the history from the groups file."""
+    import glob, json, os, re
+    m = re.match(r"(\S+) g=(\d+) (path|edge) u=(-?\d+) (?:step|k)=(\d+)", c.get("where", ""))
+    if not m:
+        return {"cfg": c.get("where", "")}
+    cfg, g, phase, u, x = m.group(1), int(m.group(2)), m.group(3), int(m.group(4)), int(m.group(5))
+    dirs = sorted(glob.glob(os.path.join(vf.BUILD, "work", "%s_%s_%d" % (PROP, part, os.getpid()))))
+    if not dirs:
+        return {"cfg": cfg}
+    with open(os.path.join(dirs[0], "groups.ndjson")) as f:
+        for i, line in enumerate(f):
+            if i == g:
+                grp = json.loads(line)
+                ops = [s["act"]["op"] for s in grp["path"]]
+                if phase == "path":
+                    return {"cfg": cfg, "hist": ops[:x], "act": {"op": ops[x] if x < len(ops) else None}}
+                e = [e for e in grp["edges"] if e["k"] == x]
+                return {"cfg": cfg, "hist": ops, "act": {"op": e[0]["act"]["op"] if e else None}}
+    return {"cfg": cfg}
+
+
